@@ -803,29 +803,41 @@ fn in_table(w: &[u8], table: &[&[u8]]) -> bool {
     found
 }
 
-/// for EVERY s in [a-z0-9_]{0,12}: lex("!" + s) is a bang/cond operator token spanning the
-/// whole word  <=>  s is offered after `!`.  The routine is entered as the dispatch harness
-/// proves it is entered for a leading `!`.
+/// for EVERY s in [a-z0-9_]{0,12} and EVERY following context (end of input or any byte that
+/// cannot continue the word, then one more arbitrary byte): lex("!" + s ...) starts with a
+/// bang/cond operator token spanning exactly "!" + s  <=>  s is offered after `!`.  The routine
+/// is entered as the dispatch harness proves it is entered for a leading `!`.
 #[kani::proof]
-#[kani::unwind(15)]
+#[kani::unwind(17)]
 #[kani::stub(crate::lexer::Lexer::error, crate::lexer::Lexer::verif_error_stub)]
 fn c20_bang_vocabulary() {
-    let bytes: [u8; 13] = kani::any();
-    let len: usize = kani::any();
-    kani::assume(len >= 1 && len <= 13);
+    let bytes: [u8; 15] = kani::any();
+    let wlen: usize = kani::any(); // "!" + word
+    let extra: usize = kani::any(); // 0..=2 following bytes
+    kani::assume(wlen >= 1 && wlen <= 13 && extra <= 2);
     kani::assume(bytes[0] == b'!');
     let mut i = 1;
-    while i < 13 {
+    while i < 15 {
         let b = bytes[i];
-        kani::assume((b >= b'a' && b <= b'z') || (b >= b'0' && b <= b'9') || b == b'_');
+        if i < wlen {
+            kani::assume((b >= b'a' && b <= b'z') || (b >= b'0' && b <= b'9') || b == b'_');
+        } else {
+            kani::assume(b < 0x80);
+        }
         i += 1;
     }
+    if extra >= 1 {
+        // the byte right after the word does not continue it
+        let f = bytes[wlen];
+        kani::assume(!f.is_ascii_alphanumeric() && f != b'_');
+    }
+    let len = wlen + extra;
     let text = unsafe { std::str::from_utf8_unchecked(&bytes[..len]) };
-    let w = &bytes[1..len];
+    let w = &bytes[1..wlen];
     let mut l = Lexer::new(text);
     l.s.jump(1);
     let kind = l.bangoperator();
-    let lexed = (kind.is_bang_operator() || kind.is_cond_operator()) && l.s.cursor() == len && l.error.is_none();
+    let lexed = (kind.is_bang_operator() || kind.is_cond_operator()) && l.s.cursor() == wlen && l.error.is_none();
     let offered = comp::in_bang(w);
     if offered && !lexed {
         if comp::in_kf_c20_bang_offered_not_lexed(w) {
@@ -841,35 +853,49 @@ fn c20_bang_vocabulary() {
             assert!(false, "C20: every bang operator the lexer accepts is offered after `!`");
         }
     }
-    kani::cover!(lexed && offered && len >= 11, "W: a long operator is both lexed and offered");
+    kani::cover!(lexed && offered && wlen >= 11 && extra == 2, "W: a long operator followed by other text is both lexed and offered");
 }
 
-/// every offered keyword / type name / boolean is lexed as exactly that keyword token
+/// every offered keyword / type name / boolean is lexed as exactly that keyword token, at the
+/// end of the input and before EVERY byte that cannot continue an identifier: for every word w
+/// over [a-z0-9_] (<= 10 bytes) and every following context, w offered => lex(w ...) starts with
+/// the keyword token of that spelling spanning exactly w
 #[kani::proof]
-#[kani::unwind(16)]
+#[kani::unwind(15)]
 #[kani::stub(crate::lexer::Lexer::error, crate::lexer::Lexer::verif_error_stub)]
 fn c20_keyword_vocabulary() {
-    let tables: [&[&[u8]]; 3] = [comp::TOPLEVEL, comp::TYPES, comp::VALUES];
-    let mut n = 0;
-    let mut t = 0;
-    while t < 3 {
-        let table = tables[t];
-        let mut i = 0;
-        while i < table.len() {
-            let w = table[i];
-            let text = unsafe { std::str::from_utf8_unchecked(w) };
-            let mut l = Lexer::new(text);
-            let kind = l.next_token();
-            assert!(l.s.cursor() == w.len() && l.error.is_none(), "C20: offered word is one token");
-            assert!(kind != K::Id && kind != K::Error, "C20: offered keyword is not a plain identifier or an error");
-            assert!(kind == ref_keyword(w), "C20: offered keyword is lexed as exactly that keyword");
-            n += 1;
-            i += 1;
+    let bytes: [u8; 12] = kani::any();
+    let wlen: usize = kani::any();
+    let extra: usize = kani::any();
+    kani::assume(wlen >= 1 && wlen <= 10 && extra <= 2);
+    kani::assume(bytes[0] >= b'a' && bytes[0] <= b'z');
+    let mut i = 1;
+    while i < 12 {
+        let b = bytes[i];
+        if i < wlen {
+            kani::assume((b >= b'a' && b <= b'z') || (b >= b'0' && b <= b'9') || b == b'_');
+        } else {
+            kani::assume(b < 0x80);
         }
-        t += 1;
+        i += 1;
     }
-    assert!(n >= 1, "W: tables not empty");
-    kani::cover!(n >= 20, "W: at least 20 offered words checked");
+    if extra >= 1 {
+        let f = bytes[wlen];
+        kani::assume(!f.is_ascii_alphanumeric() && f != b'_');
+    }
+    let text = unsafe { std::str::from_utf8_unchecked(&bytes[..wlen + extra]) };
+    let w = &bytes[..wlen];
+    let offered = comp::in_toplevel(w) || comp::in_types(w) || comp::in_values(w);
+    let mut l = Lexer::new(text);
+    l.s.jump(1);
+    let kind = l.identifier(0);
+    if offered {
+        assert!(l.s.cursor() == wlen && l.error.is_none(), "C20: offered word is one token");
+        assert!(kind != K::Id && kind != K::Error, "C20: offered keyword is not a plain identifier or an error");
+        assert!(kind == ref_keyword(w), "C20: offered keyword is lexed as exactly that keyword");
+    }
+    kani::cover!(offered && wlen == 10 && extra == 2, "W: the longest offered keyword before other text");
+    kani::cover!(offered && extra == 0, "W: an offered keyword at the end of the input");
 }
 
 // ---------------------------------------------------------------------------
